@@ -383,7 +383,7 @@ def run(rep, ctx):
     fn += [rx(q) for q in sorted(emit_qns)]
     jobs = [dict(unit=U, fn=fn, enum=[JW + "::Kind"], repo=repo),
             dict(unit="src/std_constr.cc", fn=[r"mp::WriteJSON", JW + r"::.*"], repo=repo),
-            dict(unit="src/utils_file.cc", fn=[r"mp::FileAppender__fstream::.*"], repo=repo)]
+            dict(unit="src/utils_file.cc", fn=[r"mp::FileAppender__fstream::.*"], repo=repo, closure=1, closure_roots=r"FileAppender__fstream::Open$")]
     F = Facts(export_many(jobs))
     rep.note_units([U, "src/std_constr.cc", "src/utils_file.cc"])
     funcs = [f for f in F.funcs if not f.is_dependent() and f.cfg is not None]
@@ -1496,14 +1496,29 @@ def run(rep, ctx):
     if fo:
         g = fo[0]
         er = g.params[1] if len(g.params) > 1 else None
-        trunc = []
-        for n in g.walk():
-            if n["k"] in ("CXXConstructExpr", "CXXTemporaryObjectExpr", "CXXMemberCallExpr") and "trunc" in render(n) and \
-                    ("ofstream" in (n.get("callee") or "") + (n.get("ct") or "") or (n.get("callee") or "").endswith("::open")):
-                trunc.append(n)
-        oke = er is not None and any((er["name"], True) in norm_facts(g, n) for n in trunc) and \
-            all("app" not in render(n).replace("std::ios::app", "app") or "trunc" in render(n) for n in trunc)
-        oke = oke and any(g.params[0]["name"] in render(n) for n in trunc)
+        # a stream opened on the file with the truncation bit set (and not the append bit), in Open itself or in a helper it calls,
+        # reached when the erase flag is set; open modes are compared as constants (libstdc++: trunc = 32, app = 1)
+        tb = [cv(x) for f_ in funcs for x in f_.walk() if x["k"] == "DeclRefExpr" and x.get("name") == "trunc" and cv(x) is not None]
+        ab = [cv(x) for f_ in funcs for x in f_.walk() if x["k"] == "DeclRefExpr" and x.get("name") == "app" and cv(x) is not None]
+        TRUNC, APP = (int(tb[0]) if tb else 32), (int(ab[0]) if ab else 1)
+
+        def opens_truncating(n):
+            if n["k"] in ("CXXConstructExpr", "CXXTemporaryObjectExpr") and "ofstream" in ((n.get("callee") or "") + (n.get("ct") or "")):
+                a_ = [x for x in kids(n) if x is not None and strip(x)["k"] != "CXXDefaultArgExpr"]
+            elif n["k"] == "CXXMemberCallExpr" and (n.get("callee") or "").endswith("::open"):
+                a_ = call_args(n)
+            else:
+                return False
+            if len(a_) < 2 or cv(a_[1]) is None:
+                return False
+            m_ = int(cv(a_[1]))
+            return bool(m_ & TRUNC) and not (m_ & APP)
+        oke = False
+        for a_, c_, r_, o_ in reach_calls(F, g, opens_truncating, depth=1):
+            args_ = [x for x in kids(c_) if x is not None] if c_["k"] != "CXXMemberCallExpr" else call_args(c_)
+            name_ok = bool(args_) and strip(r_(args_[0])).get("declId") == g.params[0]["declId"]
+            if er is not None and (er["name"], True) in norm_facts(g, a_) and name_ok:
+                oke = True
         p3.check(oke, "appender-erases", short_loc(g.loc), "Open(name, erase) truncates the named file when erase is set (an append-mode stream cannot: it always writes at the end)",
                  "Open(name, erase = true) does not truncate the file: records of an earlier run stay in the export, so items get two status records and records name items the model does not have")
         oge = [f for f in funcs if f.qn == "mp::FlatConverter::OpenGraphExporter"]
